@@ -15,7 +15,6 @@ import (
 
 	"github.com/B1NARY-GR0UP/originium"
 	"github.com/B1NARY-GR0UP/originium/types"
-	"github.com/B1NARY-GR0UP/originium/utils"
 
 	"verifharness/internal/core"
 	"verifharness/internal/eng"
@@ -353,17 +352,9 @@ func runConcWorkload(c core.Case, res *core.Result) *concOutcome {
 	}
 	cfg.ImmutableBuffer = []int{0, 0, 1, 2, 4}[r.Intn(5)]
 	nk := 3 + r.Intn(maxHistKeys-2)
-	keys := gen.Keys(r, []string{"hostile", "prefix"}[r.Intn(2)], nk)
-	fps := map[uint64]bool{}
-	for _, k := range keys {
-		fps[utils.Hash(k)] = true
-	}
+	keys := gen.Keys(r, keyProfileFor(c, r), nk)
+	// no guard against equal conflict fingerprints of distinct keys (see runScripted)
 	out := &concOutcome{nk: nk, cfg: cfg, keys: keys, crowd: c.Int("clients", 0) > 40}
-	if len(fps) != nk {
-		res.Verdict = "inconclusive"
-		res.Inconcl = "fingerprint collision in the key universe"
-		return out
-	}
 	G := int(c.Int("clients", 6))
 	N := int(c.Int("txns", 40))
 	if procs := int(c.Int("procs", 0)); procs > 0 {
